@@ -35,6 +35,36 @@ func init() {
 		return "ok " + showV(v)
 	}
 	ops["vstring"] = func(a []string) string { return hx(mkv(a, 0).String()) }
+	// vcmpbuf a b c: versions a and b are decoded with UnmarshalText out of ONE reused buffer (a network or file read buffer),
+	// which is overwritten again afterwards; they must compare - with each other and with c - exactly as the versions parsed
+	// from fresh strings do, and sort the same
+	ops["vcmpbuf"] = func(a []string) string {
+		buf := make([]byte, 256)
+		var va, vb version.Version
+		n := copy(buf, arg(a, 0))
+		if err := va.UnmarshalText(buf[:n]); err != nil {
+			return "err"
+		}
+		n = copy(buf, arg(a, 1))
+		if err := vb.UnmarshalText(buf[:n]); err != nil {
+			return "err"
+		}
+		for k := range buf {
+			buf[k] = '7'
+		}
+		pa, e1 := version.Parse(arg(a, 0))
+		pb, e2 := version.Parse(arg(a, 1))
+		pc, e3 := version.Parse(arg(a, 2))
+		if e1 != nil || e2 != nil || e3 != nil {
+			return "err"
+		}
+		got := sgn(version.Compare(va, pc)) + " " + sgn(version.Compare(vb, pc)) + " " + sgn(version.Compare(va, vb)) + " " + sgn(version.Compare(pc, va))
+		want := sgn(version.Compare(pa, pc)) + " " + sgn(version.Compare(pb, pc)) + " " + sgn(version.Compare(pa, pb)) + " " + sgn(version.Compare(pc, pa))
+		if got != want {
+			return "diff " + got + " | " + want
+		}
+		return "same " + got
+	}
 	// the small accessors: StringWithoutEpoch, IsNative, Empty on a directly constructed value
 	ops["vacc"] = func(a []string) string {
 		v := mkv(a, 0)
